@@ -1,11 +1,14 @@
-"""Tag-level correspondence (returns / ValueError / InvalidChordException / other class) of EVERY validator model against the
-real validator: the shape-level models of ME.Model.Validators and, on well-shaped input, the list-level models of the task
+"""Tag-level correspondence (returns / ValueError / InvalidChordException / TypeError / IndexError / other class, compared
+exactly) of EVERY validator model against the real validator: the shape-level models of ME.Model.Validators and, on well-shaped input, the list-level models of the task
 files (EventMetrics, Intervals, Transcription, SegmentCluster, Hierarchy, Multipitch, Melody, Key, ChordScore, Beat, Tempo,
 Pattern, Alignment, Separation).
 
 Cases = (a) valid inputs in the degenerate shapes of property C14 (empty, single item, duplicates, values exactly on a bound),
 (b) single-fault corruptions enumerated from the conjuncts of each documented convention (one conjunct violated at a time),
-(c) a random stream mixing both.  An array is {'sh': shape, 'd': row-major data}; non-finite tempo values are strings."""
+(c) a random stream mixing both, (d) 0-d arrays (shape ()) for every validator that takes arrays: len() of a 0-d array raises
+TypeError (segment.validate_boundary, hierarchy.validate_hier_intervals), .shape[0] raises IndexError (melody.validate_voicing /
+validate, transcription.validate, transcription_velocity.validate), the util validators answer ValueError.
+An array is {'sh': shape, 'd': row-major data}; non-finite tempo values are strings."""
 from lib import core
 
 Q64 = 1 / 64.0
@@ -54,7 +57,7 @@ BAD_KEYS = ['C', 'major', '', ' ', 'C major minor', 'H major', 'C maj', 'C Major
 def tagof(out):
     if out[0] == 'ok':
         return 0
-    return {'ValueError': 1, 'InvalidChordException': 2}.get(out[1], 3)
+    return {'ValueError': 1, 'InvalidChordException': 2, 'TypeError': 3, 'IndexError': 4}.get(out[1], 5)
 
 
 class U(core.Unit):
@@ -101,12 +104,17 @@ Inductive vcase :=
 | VChord (r e : list str)
 | VDhd (fn : nat) (r e : V.arr)                      (* 0 dhd, 1 overseg, 2 underseg, 3 seg *)
 | VEvents2 (r e : V.arr)                             (* beat.validate and onset.validate *)
-| VBoundary (r e : V.arr)
+| VBoundary (r e : V.arr)                            (* segment.validate_boundary *)
+| VPair (r e : V.arr)                                (* transcription.validate_intervals *)
 | VStructure (r : V.arr) (nrl : nat) (e : V.arr) (nel : nat)
 | VHier (H : list V.arr)
 | VMultipitch (rt : V.arr) (rf : list V.arr) (et : V.arr) (ef : list V.arr)
 | VVoicing (rv ev : list Q)
 | VMelody (rv rc ev ec : list Q)
+| VVoicingA (rv ev : V.arr)                          (* the same four on arrays of any shape *)
+| VMelodyA (rv rc ev ec : V.arr)
+| VTransA (ri rp ei ep : V.arr)
+| VVelA (ri rp rv ei ep ev : V.arr)
 | VTrans (ri : V.arr) (rp : list Q) (ei : V.arr) (ep : list Q)
 | VVel (ri : V.arr) (rp rv : list Q) (ei : V.arr) (ep ev : list Q)
 | VKey (k : str)
@@ -117,7 +125,7 @@ Inductive vcase :=
 | VPattern (r e : list (list (list (list Q))))
 | VAlign (r e : AL.tsin)
 | VSep (rs es : list nat) (rsil esil : bool).
-Definition one_d (a : V.arr) : bool := (V.ndim a =? 1)%nat.
+Definition one_d (a : V.arr) : bool := (V.ndim a =? 1)%nat && V.wf_arr a.
 Definition nby2 (a : V.arr) : bool := V.is_n_by_2 a && V.wf_arr a.
 Definition pp (l : list Q) : list TR.pitch := map (fun p => (p, 0)) l.
 (* all model tags for the case: every entry must equal the tag observed on the implementation *)
@@ -139,7 +147,9 @@ Definition tags (c : vcase) : list nat :=
                                    V.tag (EM.beat_f_measure_v (V.data r) (V.data e) (7#100));
                                    V.tag (EM.onset_f_measure_v (V.data r) (V.data e) (1#20))] else [])
   | VBoundary r e => V.tag (V.validate_boundary_arr r e) ::
-      (if nby2 r && nby2 e then [V.tag (EM.validate_boundary (V.rows r) (V.rows e)); V.tag (TR.validate_intervals2 (V.rows r) (V.rows e))] else [])
+      (if nby2 r && nby2 e then [V.tag (EM.validate_boundary (V.rows r) (V.rows e))] else [])
+  | VPair r e => V.tag (V.validate_pair_arr r e) ::
+      (if nby2 r && nby2 e then [V.tag (TR.validate_intervals2 (V.rows r) (V.rows e))] else [])
   | VStructure r nrl e nel => V.tag (V.validate_structure_arr r nrl e nel) ::
       (if nby2 r && nby2 e then [V.tag (SC.validate_structure (V.rows r) nrl (V.rows e) nel)] else [])
   | VHier H => V.tag (V.validate_hier_arr H) ::
@@ -149,6 +159,15 @@ Definition tags (c : vcase) : list nat :=
        then [V.tag (MP.validate (V.data rt) (map V.data rf) (V.data et) (map V.data ef))] else [])
   | VVoicing rv ev => [V.tag (ML.validate_voicing rv ev)]
   | VMelody rv rc ev ec => [V.tag (ML.validate rv rc ev ec)]
+  | VVoicingA rv ev => V.tag (V.melody_validate_voicing_nd rv ev) ::
+      (if one_d rv && one_d ev then [V.tag (ML.validate_voicing (V.data rv) (V.data ev))] else [])
+  | VMelodyA rv rc ev ec => V.tag (V.melody_validate_nd rv rc ev ec) ::
+      (if one_d rv && one_d rc && one_d ev && one_d ec then [V.tag (ML.validate (V.data rv) (V.data rc) (V.data ev) (V.data ec))] else [])
+  | VTransA ri rp ei ep => V.tag (V.transcription_validate_nd ri rp ei ep) ::
+      (if one_d rp && one_d ep then [V.tag (V.transcription_validate_arr ri (V.data rp) ei (V.data ep))] else [])
+  | VVelA ri rp rv ei ep ev => V.tag (V.velocity_validate_nd ri rp rv ei ep ev) ::
+      (if one_d rp && one_d rv && one_d ep && one_d ev
+       then [V.tag (V.velocity_validate_arr ri (V.data rp) (V.data rv) ei (V.data ep) (V.data ev))] else [])
   | VTrans ri rp ei ep => V.tag (V.transcription_validate_arr ri rp ei ep) ::
       (if nby2 ri && nby2 ei then [V.tag (TR.validate (V.rows ri) (pp rp) (V.rows ei) (pp ep))] else [])
   | VVel ri rp rv ei ep ev => V.tag (V.velocity_validate_arr ri rp rv ei ep ev) ::
@@ -199,9 +218,11 @@ Definition check_case (c : vcase * nat) : bool := forallb (Nat.eqb (snd c)) (tag
             out = o1
         elif k == 'boundary':
             out = ci(segment.validate_boundary, np_arr(case['r']), np_arr(case['e']), False)
-            o2 = ci(transcription.validate_intervals, np_arr(case['r']), np_arr(case['e']))
+            o2 = ci(segment.validate_boundary, np_arr(case['r']), np_arr(case['e']), True)
             if tagof(o2) != tagof(out):
                 return 99
+        elif k == 'pair':
+            out = ci(transcription.validate_intervals, np_arr(case['r']), np_arr(case['e']))
         elif k == 'structure':
             out = ci(segment.validate_structure, np_arr(case['r']), ['x'] * case['nrl'], np_arr(case['e']), ['y'] * case['nel'])
         elif k == 'hier':
@@ -213,6 +234,14 @@ Definition check_case (c : vcase * nat) : bool := forallb (Nat.eqb (snd c)) (tag
             out = ci(melody.validate_voicing, np.array(case['rv'], dtype=float), np.array(case['ev'], dtype=float))
         elif k == 'melody':
             out = ci(melody.validate, *[np.array(case[x], dtype=float) for x in ('rv', 'rc', 'ev', 'ec')])
+        elif k == 'voicing_a':
+            out = ci(melody.validate_voicing, np_arr(case['rv']), np_arr(case['ev']))
+        elif k == 'melody_a':
+            out = ci(melody.validate, *[np_arr(case[x]) for x in ('rv', 'rc', 'ev', 'ec')])
+        elif k == 'trans_a':
+            out = ci(transcription.validate, *[np_arr(case[x]) for x in ('ri', 'rp', 'ei', 'ep')])
+        elif k == 'vel_a':
+            out = ci(transcription_velocity.validate, *[np_arr(case[x]) for x in ('ri', 'rp', 'rv', 'ei', 'ep', 'ev')])
         elif k == 'trans':
             out = ci(transcription.validate, np_arr(case['ri']), np.array(case['rp'], dtype=float), np_arr(case['ei']),
                      np.array(case['ep'], dtype=float))
@@ -227,7 +256,10 @@ Definition check_case (c : vcase * nat) : bool := forallb (Nat.eqb (snd c)) (tag
         elif k == 'wacc':
             out = ci(chord.weighted_accuracy, np.array(case['c'], dtype=float), np.array(case['w'], dtype=float))
         elif k == 'tempi':
-            out = ci(tempo.validate_tempi, np.array([fl(x) for x in case['t']], dtype=float), case['ref'])
+            t = np.array([fl(x) for x in case['t']], dtype=float)
+            if case.get('zerod'):          # a 0-d array with the same single value: size 1, like the list [x]
+                t = t.reshape(())
+            out = ci(tempo.validate_tempi, t, case['ref'])
         elif k == 'tempo':
             out = ci(tempo.validate, np.array([fl(x) for x in case['r']], dtype=float), case['w'],
                      np.array([fl(x) for x in case['e']], dtype=float))
@@ -269,6 +301,16 @@ Definition check_case (c : vcase * nat) : bool := forallb (Nat.eqb (snd c)) (tag
             t = 'VEvents2 %s %s' % (cq_arr(case['r']), cq_arr(case['e']))
         elif k == 'boundary':
             t = 'VBoundary %s %s' % (cq_arr(case['r']), cq_arr(case['e']))
+        elif k == 'pair':
+            t = 'VPair %s %s' % (cq_arr(case['r']), cq_arr(case['e']))
+        elif k == 'voicing_a':
+            t = 'VVoicingA %s %s' % (cq_arr(case['rv']), cq_arr(case['ev']))
+        elif k == 'melody_a':
+            t = 'VMelodyA %s %s %s %s' % tuple(cq_arr(case[x]) for x in ('rv', 'rc', 'ev', 'ec'))
+        elif k == 'trans_a':
+            t = 'VTransA %s %s %s %s' % tuple(cq_arr(case[x]) for x in ('ri', 'rp', 'ei', 'ep'))
+        elif k == 'vel_a':
+            t = 'VVelA %s %s %s %s %s %s' % tuple(cq_arr(case[x]) for x in ('ri', 'rp', 'rv', 'ei', 'ep', 'ev'))
         elif k == 'structure':
             t = 'VStructure %s %d %s %d' % (cq_arr(case['r']), case['nrl'], cq_arr(case['e']), case['nel'])
         elif k == 'hier':
@@ -337,6 +379,8 @@ Definition check_case (c : vcase * nat) : bool := forallb (Nat.eqb (snd c)) (tag
             for e in [I(), I((0, 1)), I((1, 1)), arr([0, 1, 2], [1, 3]), I((-1, 1))]:
                 C.append({'k': 'boundary', 'r': r, 'e': e})
                 C.append({'k': 'boundary', 'r': e, 'e': r})
+                C.append({'k': 'pair', 'r': r, 'e': e})
+                C.append({'k': 'pair', 'r': e, 'e': r})
         # --- util.validate_frequencies
         fr = [E(), E(20), E(5000), E(440, 220), E(19.5), E(5000.5), E(0), E(-440), E(-19.5), E(-5000.5), E(-20), E(-5000),
               arr([440, 220], [1, 2]), arr([440, 220], [2, 1]), arr([440], []), arr([], [0, 1]), arr([10000], [1, 1]), arr([1], [1, 1])]
@@ -453,6 +497,67 @@ Definition check_case (c : vcase * nat) : bool := forallb (Nat.eqb (snd c)) (tag
                         if (rsil and (len(rs) < 2 or 0 in rs)) or (esil and (len(es) < 2 or 0 in es)):
                             continue
                         C.append({'k': 'sep', 'rs': rs, 'es': es, 'rsil': rsil, 'esil': esil})
+        # --- 0-d arrays (shape ()) through every validator that takes arrays; the exception class is compared exactly
+        Z = lambda x: arr([x], [])  # noqa
+        zs = [Z(3), Z(0.5), Z(0), Z(-1), Z(40000)]
+        for z in zs:
+            C.append({'k': 'events', 'max': 30000.0, 'a': z})
+            C.append({'k': 'intervals', 'a': z})
+            for allow in (False, True):
+                C.append({'k': 'freqs', 'max': 5000.0, 'min': 20.0, 'allow': allow, 'a': Z(440)})
+                C.append({'k': 'freqs', 'max': 5000.0, 'min': 20.0, 'allow': allow, 'a': z})
+            for o in [E(), E(1, 2), E(2, 1), z]:
+                C.append({'k': 'events2', 'r': z, 'e': o})
+                C.append({'k': 'events2', 'r': o, 'e': z})
+            for o in [I(), I((0, 1)), I((1, 1)), arr([0, 1], [2]), arr([0, 1, 2], [1, 3]), z]:
+                for kk in ('boundary', 'pair'):
+                    C.append({'k': kk, 'r': z, 'e': o})
+                    C.append({'k': kk, 'r': o, 'e': z})
+                for fn in range(4):
+                    C.append({'k': 'dhd', 'fn': fn, 'r': z, 'e': o})
+                    C.append({'k': 'dhd', 'fn': fn, 'r': o, 'e': z})
+                C.append({'k': 'structure', 'r': z, 'nrl': 0, 'e': o, 'nel': o['sh'][0] if o['sh'] else 0})
+                C.append({'k': 'structure', 'r': o, 'nrl': o['sh'][0] if o['sh'] else 0, 'e': z, 'nel': 1})
+                C.append({'k': 'hier', 'H': [z, o]})
+                C.append({'k': 'hier', 'H': [o, z]})
+                C.append({'k': 'hier', 'H': [I((0, 4)), o, z]})
+                C.append({'k': 'hier', 'H': [I((0, 4)), z, o]})
+            C.append({'k': 'hier', 'H': [z]})
+            C.append({'k': 'multipitch', 'rt': z, 'rf': [E(220)], 'et': E(0), 'ef': [E(220)]})
+            C.append({'k': 'multipitch', 'rt': E(0), 'rf': [E(220)], 'et': z, 'ef': [E(220)]})
+            C.append({'k': 'multipitch', 'rt': E(0), 'rf': [z], 'et': E(0), 'ef': [E(220)]})
+            C.append({'k': 'multipitch', 'rt': E(0), 'rf': [Z(440)], 'et': E(0), 'ef': [E(220)]})
+            C.append({'k': 'multipitch', 'rt': E(0), 'rf': [E(220)], 'et': E(0), 'ef': [Z(440)]})
+            C.append({'k': 'align', 'r': z, 'e': E(1, 2)})
+            C.append({'k': 'align', 'r': E(1, 2), 'e': z})
+            for ref in (True, False):
+                C.append({'k': 'tempi', 't': z['d'], 'ref': ref, 'zerod': True})
+        # melody / transcription on arrays of any shape (0-d: IndexError from .shape[0]; 2-d: the first axis counts)
+        va = [E(), E(1), E(1, 0), E(0.5, 0.25), E(1, 1.5), E(-0.5, 1), Z(0.5), Z(1), Z(2), arr([1, 0], [1, 2]), arr([1, 2], [1, 2]),
+              arr([1, 0], [2, 1]), arr([], [0, 2])]
+        for a in va:
+            for b in va:
+                C.append({'k': 'voicing_a', 'rv': a, 'ev': b})
+        ma = [E(), E(1), E(1, 2), Z(0.5), arr([1, 2], [1, 2]), arr([1, 2], [2, 1])]
+        for a in ma:
+            for b in ma:
+                for c in (E(1), Z(0.5), E(1, 2)):
+                    for d in (E(1), Z(0.5), E(1, 2)):
+                        C.append({'k': 'melody_a', 'rv': a, 'rc': b, 'ev': c, 'ec': d})
+        n1, n2 = I((0, 1)), I((0, 1), (1, 2))
+        pa = [E(), E(220), E(220, 440), E(220, 0), E(-220), Z(220), Z(0), Z(-1), arr([220, 440], [1, 2]), arr([220, -1], [1, 2]),
+              arr([220, 440], [2, 1]), arr([], [0, 2])]
+        for iv in (I(), n1, n2, I((1, 1)), arr([3], []), arr([0, 1], [2])):
+            for rp in pa:
+                for ep in (E(220), Z(220), E(), E(220, 440)):
+                    C.append({'k': 'trans_a', 'ri': iv, 'rp': rp, 'ei': n1, 'ep': ep})
+                    C.append({'k': 'trans_a', 'ri': n1, 'rp': ep, 'ei': iv, 'ep': rp})
+        vv = [E(), E(64), E(64, 0), E(-1), Z(64), Z(-1), arr([64, 64], [1, 2]), arr([64, -1], [1, 2]), arr([64, 64], [2, 1])]
+        for rp, iv in ((E(220), n1), (E(220, 440), n2), (Z(220), n1), (E(), I())):
+            for rv in vv:
+                for ev in (E(64), Z(64), E(), E(64, 64)):
+                    C.append({'k': 'vel_a', 'ri': iv, 'rp': rp, 'rv': rv, 'ei': n1, 'ep': E(220), 'ev': ev})
+                    C.append({'k': 'vel_a', 'ri': n1, 'rp': E(220), 'rv': ev, 'ei': iv, 'ep': rp, 'ev': rv})
         return C
 
     # ------------------------------------------------------------------ random stream: a valid base, then zero or one fault
@@ -543,7 +648,11 @@ Definition check_case (c : vcase * nat) : bool := forallb (Nat.eqb (snd c)) (tag
                 return arr(x, [1, len(x)])
             return arr(x)
 
-        kinds = ['events', 'events2', 'intervals', 'boundary', 'freqs', 'chord', 'dhd', 'structure', 'hier', 'multipitch', 'voicing',
+        def zero_d(a):
+            """with small probability replace an array by a 0-d one"""
+            return arr([rng.choice([0.0, 0.5, 3.0, 220.0])], []) if rng.random() < 0.12 else a
+
+        kinds = ['events', 'events2', 'intervals', 'boundary', 'pair', 'voicing_a', 'melody_a', 'trans_a', 'vel_a', 'freqs', 'chord', 'dhd', 'structure', 'hier', 'multipitch', 'voicing',
                  'melody', 'trans', 'vel', 'keys', 'wacc', 'tempo', 'pattern', 'align', 'sep']
         while len(out) < n:
             k = rng.choice(kinds)
@@ -553,8 +662,43 @@ Definition check_case (c : vcase * nat) : bool := forallb (Nat.eqb (snd c)) (tag
                 out.append({'k': k, 'r': ev_fault(events()), 'e': ev_fault(events()) if rng.random() < 0.5 else arr(events())})
             elif k == 'intervals':
                 out.append({'k': k, 'a': iv_fault(intervals())})
-            elif k == 'boundary':
-                out.append({'k': k, 'r': iv_fault(intervals()), 'e': ivs(intervals()) if rng.random() < 0.6 else iv_fault(intervals())})
+            elif k in ('boundary', 'pair'):
+                c = {'k': k, 'r': zero_d(iv_fault(intervals())), 'e': zero_d(ivs(intervals()) if rng.random() < 0.6 else iv_fault(intervals()))}
+                if rng.random() < 0.5:
+                    c['r'], c['e'] = c['e'], c['r']
+                out.append(c)
+            elif k == 'voicing_a':
+                m = rng.choice([0, 1, 3])
+                v = lambda d=0: arr([rng.choice([0.0, 1.0, 0.5, 1.5, -0.25]) for _ in range(max(0, m + d))])  # noqa
+                a, b = v(), v(rng.choice([0, 0, 1]))
+                if rng.random() < 0.2 and m:
+                    a = arr(a['d'], [1, m])
+                out.append({'k': k, 'rv': zero_d(a), 'ev': zero_d(b)})
+            elif k == 'melody_a':
+                m = rng.choice([0, 1, 3])
+                v = lambda: arr([float(rng.choice([0, 1200])) for _ in range(max(0, m + rng.choice([0, 0, 0, 1, -1])))])  # noqa
+                out.append({'k': k, 'rv': zero_d(v()), 'rc': zero_d(v()), 'ev': zero_d(v()), 'ec': zero_d(v())})
+            elif k in ('trans_a', 'vel_a'):
+                def notes_a():
+                    m = rng.choice([0, 1, 2])
+                    on = L(m, 1 / 16.0, 160)
+                    return ivs([(o, o + 0.5) for o in on]), arr([rng.choice([220.0, 440.0, 0.0, -220.0, 880.0, 880.0]) for _ in range(m)]), \
+                        arr([float(rng.choice([0, 64, 127, 127, -1])) for _ in range(m)])
+                ri, rp, rv = notes_a()
+                ei, ep, ev = notes_a()
+                f = rng.choice(['none', 'none', 'iv', 'plen', 'p2d', 'vlen'])
+                if f == 'iv':
+                    ri = iv_fault([tuple(ri['d'][2 * i:2 * i + 2]) for i in range(ri['sh'][0])])
+                elif f == 'plen':
+                    rp = arr(rp['d'] + [220.0])
+                elif f == 'p2d' and ep['d']:
+                    ep = arr(ep['d'], [1, len(ep['d'])])
+                elif f == 'vlen':
+                    ev = arr(ev['d'] + [64.0])
+                if k == 'trans_a':
+                    out.append({'k': k, 'ri': zero_d(ri), 'rp': zero_d(rp), 'ei': ei, 'ep': zero_d(ep)})
+                else:
+                    out.append({'k': k, 'ri': ri, 'rp': zero_d(rp), 'rv': zero_d(rv), 'ei': ei, 'ep': zero_d(ep), 'ev': zero_d(ev)})
             elif k == 'freqs':
                 out.append({'k': k, 'max': 5000.0, 'min': 20.0, 'allow': rng.random() < 0.3, 'a': fr_fault(freqs())})
             elif k == 'chord':
@@ -768,7 +912,8 @@ Definition check_case (c : vcase * nat) : bool := forallb (Nat.eqb (snd c)) (tag
     def distribution(self, pairs):
         d = {}
         for c, o in pairs:
-            key = '%s:%s' % (c['k'], {0: 'ok', 1: 'ValueError', 2: 'InvalidChord', 3: 'other'}.get(o, 'IMPL-DISAGREE-%s' % o))
+            key = '%s:%s' % (c['k'], {0: 'ok', 1: 'ValueError', 2: 'InvalidChord', 3: 'TypeError', 4: 'IndexError', 5: 'other'}
+                             .get(o, 'IMPL-DISAGREE-%s' % o))
             d[key] = d.get(key, 0) + 1
         return dict(sorted(d.items()))
 
